@@ -147,3 +147,15 @@ func H_C04(p, m int) {
 	}
 	CheckContent(hp, content)
 }
+
+// DictContents are fixed contents that spell something meaningful elsewhere in the language or in SQL.
+var DictContents = []string{"true", "null", "false", "count", "$left", "$right", "a b", "select", "and", "T", "__subquery0", "1", "0x1F", "a.b", "x) or (y", "-- c", "/*", "s", "n"}
+
+// H_C04dict checks content position p with the dictionary contents (every one the lexer admits there).
+func H_C04dict(p int) {
+	hp := Holes[p]
+	if hp.Kind == "number" || hp.Kind == "ident" {
+		return
+	}
+	CheckContent(hp, DictContents[verif.Concrete(verif.IntRange(0, len(DictContents)))])
+}
